@@ -83,4 +83,18 @@ SQFS_INTERNAL int hex_decode(const char *in, size_t in_sz,
 SQFS_INTERNAL int base64_decode(const char *in, size_t in_len,
 				sqfs_u8 *out, size_t *out_len);
 
+/*
+  Observation points for the verification harness. Inert unless the tree is
+  built with -DSQFSNG_VERIF, in which case verif_event() is provided by the
+  harness runtime. The kind numbers are listed in the harness (verif_rt.h).
+ */
+#ifdef SQFSNG_VERIF
+#include <stdint.h>
+void verif_event(int kind, uint64_t a, uint64_t b, uint64_t c);
+#define VERIF_EVENT(kind, a, b, c) \
+	verif_event((kind), (uint64_t)(a), (uint64_t)(b), (uint64_t)(c))
+#else
+#define VERIF_EVENT(kind, a, b, c) ((void)0)
+#endif
+
 #endif /* SQFS_UTIL_H */
